@@ -260,6 +260,10 @@ impl GenerationPass for AvailableValuePass {
                 rule_known_values_to_stack(&mut out_memory_n, &node.reg_values_in());
                 // TODO stack reset?
 
+                // The zero register always reads as 0: whatever an instruction
+                // "writes" to it, nothing is known about it afterwards.
+                out_reg_n -= Register::const_zero_set().iter();
+
                 // If either of the outs changed, replace the old outs with the new outs
                 // and mark that we changed something.
                 changed |= node.set_reg_values_out(out_reg_n);
